@@ -55,16 +55,18 @@ def hasSub (p : List Char) : List Char → Bool
 /-- the call's name contains "check" -/
 def isCheckName (s : String) : Bool := hasSub "check".toList s.toList
 
-/-- the six guarded sites the stores model (BaseNode, BinaryNode, DAGNode: parent(s) and children setters) -/
+/-- the guarded sites the stores model (BaseNode, BinaryNode, DAGNode: parent(s) and children setters); the
+DAGNode children setter has two blocks since D13 (type check, `list(...)` of the argument, loop check) -/
 def modelledSites : List String :=
   ["bigtree.node.basenode.BaseNode.children", "bigtree.node.basenode.BaseNode.parent",
    "bigtree.node.binarynode.BinaryNode.children", "bigtree.node.binarynode.BinaryNode.parent",
-   "bigtree.node.dagnode.DAGNode.children", "bigtree.node.dagnode.DAGNode.parents"]
+   "bigtree.node.dagnode.DAGNode.children", "bigtree.node.dagnode.DAGNode.children",
+   "bigtree.node.dagnode.DAGNode.parents"]
 
 /-- The checks are pure guards: every `if ASSERTIONS:` block of the package consists only of bare calls
 whose name contains "check" (no other statement, no `else`), `ASSERTIONS` is read nowhere else, the check
 functions store to nothing that is not local and call no mutator on a non-local, and the guarded sites
-are exactly the six setters that the stores model. -/
+are exactly the six setters that the stores model (one of them with two blocks). -/
 theorem guards_pure :
     (Generated.guardBlocks.all fun b => b.2.1.all isCheckName && b.2.2.isEmpty) = true ∧
     Generated.assertionsOtherReads = [] ∧
